@@ -86,7 +86,8 @@ def run(chk):
           ("P", 1, "ph,ph", 1, True), ("P", 2, "ph,ph", 1, True),
           ("P", 2, "ph,ph", 1, False), ("T", 1, "pphh", 1, 1, True),
           ("P", 0, "pphh,pphh", 1, True), ("P", 1, "ph,pphh", 1, True),
-          ("P", 1, "pphh,ph", 1, True)]
+          ("P", 1, "pphh,ph", 1, True), ("P", 0, "ph,ph", 2, True),
+          ("P", 1, "ph,ph", 2, True)]
     ip = [("T", 0, "h", 0, 1, True), ("T", 1, "h", 0, 1, True),
           ("T", 2, "h", 0, 1, True), ("P", 0, "h,h", 1, True),
           ("P", 2, "h,h", 1, True), ("P", 0, "phh,phh", 1, True),
@@ -97,7 +98,7 @@ def run(chk):
     if not quick:
         pp += [("T", 2, "pphh", 1, 1, True), ("P", 1, "pphh,pphh", 1, True),
                ("P", 2, "ph,pphh", 1, True), ("T", 3, "ph", 1, 1, True),
-               ("P", 0, "ph,ph", 2, True), ("P", 1, "ph,ph", 2, True)]
+               ("P", 1, "ph,ph", 2, False), ("P", 2, "ph,ph", 2, True)]
         ip += [("T", 2, "phh", 0, 1, True), ("P", 1, "phh,phh", 1, True),
                ("P", 2, "h,phh", 1, True), ("T", 3, "h", 0, 1, True)]
         ea += [("T", 2, "pph", 1, 0, True), ("P", 1, "pph,pph", 1, True),
